@@ -5,16 +5,21 @@
 EXTENDS Units, FloatEnc
 
 (* a NUMBER as a big rational: the opaque generators contribute mantissa^e and a power of ten *)
+OGenSeq == <<"eV", "NA", "kB", "hP", "R">>
+RECURSIVE OTen(_, _)
+OTen(n, i) == IF i > Len(OGenSeq) THEN 0 ELSE n.s[OGenSeq[i]] * GenValue[OGenSeq[i]].e10 + OTen(n, i + 1)
+RECURSIVE OMant(_, _, _)
+\* product of the mantissas of the opaque generators with positive (sgn = 1) or negative (sgn = -1) exponents
+OMant(n, i, sgn) == IF i > Len(OGenSeq) THEN BOne
+                    ELSE BMul(BPowBig(BFromInt(GenValue[OGenSeq[i]].mant), Pos(sgn * n.s[OGenSeq[i]])), OMant(n, i + 1, sgn))
 NumRat(n) ==
     IF NIsZero(n) THEN BRZero
-    ELSE LET ten == n.s.eV * GenValue.eV.e10 + n.s.NA * GenValue.NA.e10
+    ELSE LET ten == OTen(n, 1)
              e2 == n.s.g2 + ten
              e5 == n.s.g5 + ten
              e3 == n.s.g3
-             gpos == BMul(BPowBig(BFromInt(GenValue.eV.mant), Pos(n.s.eV)), BPowBig(BFromInt(GenValue.NA.mant), Pos(n.s.NA)))
-             gneg == BMul(BPowBig(BFromInt(GenValue.eV.mant), Pos(-n.s.eV)), BPowBig(BFromInt(GenValue.NA.mant), Pos(-n.s.NA)))
-             num == BMul(BMul(BMul(BFromInt(Abs(n.m[1])), BPow2(Pos(e2))), BMul(BPow3(Pos(e3)), BPow5(Pos(e5)))), gpos)
-             den == BMul(BMul(BMul(BFromInt(n.m[2]), BPow2(Pos(-e2))), BMul(BPow3(Pos(-e3)), BPow5(Pos(-e5)))), gneg)
+             num == BMul(BMul(BMul(BFromInt(Abs(n.m[1])), BPow2(Pos(e2))), BMul(BPow3(Pos(e3)), BPow5(Pos(e5)))), OMant(n, 1, 1))
+             den == BMul(BMul(BMul(BFromInt(n.m[2]), BPow2(Pos(-e2))), BMul(BPow3(Pos(-e3)), BPow5(Pos(-e5)))), OMant(n, 1, -1))
          IN  BRat(Sgn(n.m[1]), num, den)
 
 Exceeds(r, k) == r.s > 0 /\ BLe(BMul(BFromInt(k), r.d), r.n)
